@@ -658,6 +658,10 @@ namespace occa {
       while (!inputIsEmpty()) {
         token_t *token = NULL;
         (*this) >> token;
+        // The input ended inside the line: #if defined(
+        if (!token) {
+          break;
+        }
 
         if (token->type() & tokenType::newline) {
           incrementNewline();
